@@ -21,6 +21,10 @@ add("C02","E1 enum","exploration",
     "Every division/remainder form (112 forms: div_rem, _vartime with equal and mixed divisor width, rem, rem_wide_vartime, by limb with/without reciprocal, checked, wrapping, operators, assigning, Wrapping, traits; Uint<1,2,3,4,6,8,16,32,64>; BoxedUint with independent dividend/divisor precision 1..=70 limbs) applied to complete dividend x divisor products incl. every divisor bit length, NEAR(q*d) dividends, the textbook add-back vectors; rem2k for every k. Compared with BigUint q, r AND the identity n=q*d+r, r<d. An oracle-side Knuth-D classifier counts add-back / capped-estimate / lshift=0 hits (all non-zero).",
     ASSUME, "bounded-exhaustive enumeration of operand shapes x forms on the real code against a BigUint reference model, with path-class hit counting", "DESIGN.md §3.C02")
 
+add("C05","E1 enum","exploration",
+    "Every shift form (232 forms incl. bit queries and bitwise operators: ct, _vartime, overflowing, wrapping, double-width, operators for u32/usize/i32, assigning; Limb, Uint<1,2,3,4,5,6,8,16>, Int, BoxedUint 1..=20 limbs) is applied with EVERY shift amount 0..=2*BITS+1, i32::MAX and u32::MAX to a value set containing every single bit, 2^j+-1 and runs of ones ending at every limb boundary; every bit index 0..=BITS+1 for bit tests; compared with an independent limb-vector shifter.",
+    ASSUME + " Shift amounts and bit indices are exhaustive in the stated range.", "bounded-exhaustive enumeration (exhaustive in the shift amount / bit index, shape-exhaustive in the value) on the real code against an independent reference", "DESIGN.md §3.C05")
+
 NOT_YET = {}
 ALL = [f"C{i:02d}" for i in range(1,21)]
 import os, sys
